@@ -225,6 +225,11 @@ class Renderer:
                 k = it['h']
                 if k in ('lambda', 'comp'):
                     text, marks = self.lambda_expr(i, c) if k == 'lambda' else self.comp_expr(i, c)
+                    if (self.seed + i) % 2 == 0:
+                        # the expression scope as the right-hand side of an assignment statement (jedi looks names of an
+                        # expr_stmt up at the START of the statement: parameters of a lambda inside it lie behind that point)
+                        pre = 'z_%d = ' % i
+                        text, marks = pre + text, [(j, col + len(pre), kd) for (j, col, kd) in marks]
                     self.emit(ind, text, marks)
                 elif k == 'fn':
                     ps, nxt = self.params(i, c)
